@@ -85,7 +85,8 @@ def _funcprime(base, max_count, num_reserved, uint_max):
     Numba function used to determine the base of the log needed.
     """
     M = float64(max_count) - float64(num_reserved)
-    return uint_max * base ** (uint_max - num_reserved) - M
+    K = float64(uint_max) - float64(num_reserved)
+    return K * base ** (K - 1.0) - M
 
 
 @njit(float64(uint64, uint32, uint32))
@@ -118,10 +119,12 @@ def _find_base(max_count, num_reserved, uint_max):
     base = float64(np.exp(np.log(max_count) / (uint_max - num_reserved)))
 
     for i in range(200):
-        base = base - _func(base, max_count, num_reserved, uint_max) / _funcprime(
-            base, max_count, num_reserved, uint_max
-        )
-    if base < 1.000000001:
+        fprime = _funcprime(base, max_count, num_reserved, uint_max)
+        if fprime == 0.0:
+            break
+        base = base - _func(base, max_count, num_reserved, uint_max) / fprime
+    # NaN-safe: anything that is not a base above 1.0 is rejected
+    if not base >= 1.000000001:
         raise ValueError("Calculated base is 1.0. Raise max_count")
     return base
 
